@@ -81,8 +81,9 @@ pub mod vthread {
     }
 
     pub fn park_timeout(dur: Duration) {
-        if super::now_ns().is_some() {
-            super::note("timer.idle", dur.as_nanos() as usize, 0);
+        // the controller answers non-zero when it owns the clock (asking through `now_ns` here would
+        // count as the timer thread looking at the time again)
+        if super::note("timer.idle", dur.as_nanos() as usize, 0) != 0 {
             std::thread::park_timeout(Duration::from_micros(100));
         } else {
             std::thread::park_timeout(dur)
